@@ -102,6 +102,9 @@ def make_container(strs, kind):
 CONTAINERS = ["list", "tuple", "ndarray", "series", "series_shift", "series_perm", "series_str"]
 
 
+_SAME = [0]
+
+
 def call_engine(inp, letters=AA, api=None, output_type="triplets", container="list", n_cpu=1,
                 max_returns=None, extra=None):
     """Run the public search function selected by inp on the real code; returns the raw result."""
@@ -116,16 +119,21 @@ def call_engine(inp, letters=AA, api=None, output_type="triplets", container="li
     if extra:
         kw.update(extra)
     eng = inp["engine"]
+    # a collection searched against ITSELF as second collection: every other such call hands over the very same object
+    # (the two-collection answer - including the pairs of equal positions - does not depend on object identity)
+    same = inp["two"] and inp["seqs2"] == inp["seqs"]
+    if same:
+        _SAME[0] += 1
     if eng == "symdel":
         fn = getattr(nn, api or "symdel")
         if inp["two"]:
-            kw["seqs2"] = make_container([dec(s, letters) for s in inp["seqs2"]], container)
+            kw["seqs2"] = seqs if (same and _SAME[0] % 2) else make_container([dec(s, letters) for s in inp["seqs2"]], container)
         return fn(seqs, **kw)
     if eng == "hash":
         if inp["two"]:
             if api == "LookupDB" or api is None:
                 db = nn.LookupDB(seqs)
-                q = make_container([dec(s, letters) for s in inp["seqs2"]], container)
+                q = seqs if (same and _SAME[0] % 2) else make_container([dec(s, letters) for s in inp["seqs2"]], container)
                 k = kw.pop("max_edits")
                 return db.lookup(q, max_edits=k, **kw)
             raise KeyError(api)
@@ -361,7 +369,7 @@ def validate_sessions(ctx, sessions, invariants=("Exact", "NoRepeat", "NoSelf"),
     return verdicts
 
 
-API_EVENTS = {"CheckInput", "Join", "Output", "NewLookup"}
+API_EVENTS = {"CheckInput", "Join", "Output", "OutputLimited", "NewLookup"}
 
 
 def failed_api_clauses(verdict):
